@@ -36,10 +36,11 @@ type Case struct {
 	// entry storm (TestPropEntryStorm)
 	Callers int    `json:"callers,omitempty"` // goroutines entering Rpc when the connection fails
 	Rounds  int    `json:"rounds,omitempty"`  // fresh connections failed one after the other
-	Mode    string `json:"mode,omitempty"`
+	Mode    string `json:"mode,omitempty"`    // "answer": the peer answers every request until the failure; "silent": it answers nothing
 	Perturb uint64 `json:"perturb,omitempty"` // seed of the schedule perturbation at the client hook points and of the per-round delays
 	Procs   int    `json:"procs,omitempty"`   // GOMAXPROCS
-	Spread  int    `json:"spread,omitempty"`
+	Spread  int    `json:"spread,omitempty"`  // bound of the per-caller start stagger (spin iterations)
+	Hook    bool   `json:"hook,omitempty"`    // schedule perturbation at the client hook points
 }
 
 const deadline = 25 * time.Second
@@ -352,14 +353,32 @@ func replyLen(p *peer.Peer, m *ref9p.Msg) int { return len(p.Encode(peer.Answer(
 func execute(test string, c *Case) error {
 	hx.Journal(test, c)
 	hx.Eval()
-	hx.Label(fmt.Sprintf("fail=%s", c.Fail))
-	hx.Label(fmt.Sprintf("outstanding=%d", len(c.Calls)))
-	if len(c.Calls) >= 1 || c.Late {
+	switch test {
+	case "entrystorm": // (non-trivial or not is decided by what the rounds reached)
+		hx.Label("entry storm fail=" + c.Fail)
+		hx.Label("entry storm mode=" + c.Mode)
+	case "storm":
+		hx.Label("storm fail=" + c.Fail)
 		b, _ := json.Marshal(c)
 		hx.NonTrivial(b)
+	default:
+		hx.Label(fmt.Sprintf("fail=%s", c.Fail))
+		hx.Label(fmt.Sprintf("outstanding=%d", len(c.Calls)))
+		if len(c.Calls) >= 1 || c.Late {
+			b, _ := json.Marshal(c)
+			hx.NonTrivial(b)
+		}
 	}
 	hx.Sample(test, c)
-	err := run(c)
+	var err error
+	switch test {
+	case "entrystorm":
+		err = runEntry(c)
+	case "storm":
+		err = runStorm(c)
+	default:
+		err = run(c)
+	}
 	if h, ok := err.(hangErr); ok {
 		if blocked := hx.BlockedInGo9p(); blocked != "" {
 			return fmt.Errorf("%s; goroutines blocked inside go9p:\n%s", string(h), blocked)
@@ -730,21 +749,7 @@ func TestFailureStorm(t *testing.T) {
 			continue
 		}
 		c := &Case{Dotu: r%2 == 0, Msize: 512, Fail: []string{"eof", "err", "unmount", "badtype", "unknowntag"}[r%5], Calls: []string{"storm"}, After: 8, Cut: r}
-		hx.Journal("storm", c)
-		hx.Eval()
-		hx.Label("storm fail=" + c.Fail)
-		b, _ := json.Marshal(c)
-		hx.NonTrivial(b)
-		err := runStorm(c)
-		if h, ok := err.(hangErr); ok {
-			if blocked := hx.BlockedInGo9p(); blocked != "" {
-				err = fmt.Errorf("%s; goroutines blocked inside go9p:\n%s", string(h), blocked)
-			} else {
-				hx.Inconclusive(string(h))
-				err = nil
-			}
-		}
-		if err != nil {
+		if err := execute("storm", c); err != nil {
 			hx.Violation("storm", c, err.Error())
 			t.Fatalf("%v", err)
 		}
@@ -851,6 +856,9 @@ func replayEnv(t *testing.T, e *hx.Envelope, times int) {
 	var c Case
 	if err := json.Unmarshal(e.Case, &c); err != nil {
 		t.Fatalf("bad case: %v", err)
+	}
+	if e.Test == "entrystorm" {
+		times *= 10 // schedule-dependent: one pass of a few dozen rounds proves little
 	}
 	for i := 0; i < times; i++ {
 		if err := execute(e.Test, &c); err != nil {
